@@ -677,7 +677,7 @@ def sweep_polyhedron(rep, pp, quick):
         bound=f"{len(rects)} rectangles (cube) + {len(rects) // (2 if quick else 3)} (tetrahedron) + 2 x {ntri} triangles",
         exhaustive=False,
     ) as sw:
-        for solid in SOLIDS:
+        for solid in ("cube", "tetrahedron"):
             planes = SOLIDS[solid][0]
             polys = [r for r in rects if solid == "cube" or (2 if quick else 1) in {r[0][a] for a in range(3) if len({q[a] for q in r}) == 1}]
             box = list(itertools.product(range(-1, 6), repeat=3))
